@@ -146,7 +146,10 @@ cu_iterator::move ()
 			nullptr, nullptr, nullptr) != 0)
 	done ();
       else if (dwarf_offdie (m_dw, m_old_offset + hsize, &m_cudie) == nullptr)
-	continue;
+	{
+	  done ();
+	  throw_libdw ();
+	}
     }
   while (false);
 }
